@@ -213,7 +213,7 @@ FIND_CLASSES = {"ListComp": ["elt", "generators"], "SetComp": ["elt", "generator
                 "For": ["target", "iter", "body", "orelse"], "ExceptHandler": ["type", "body"], "Assign": ["targets", "value"]}
 
 
-@rule("C19.idents-fields", min_instances=12, props=["C04"])
+@rule("C19.idents-fields", min_instances=12, props=["C04", "C13"])
 def idents_fields(ctx):
     """FindIdentifiers: every overriding visitor covers the node's child fields on every branch; functions and lambdas bind parameters of every kind and evaluate their defaults in the enclosing scope"""
     db = ctx.db
@@ -256,6 +256,25 @@ def idents_fields(ctx):
             continue
         acc = access_paths(h, {pn(h, 1): "node"})
         miss = [f for f in fields if ("node.%s" % f) not in acc and not P.has(h, "self.generic_visit(%s)" % pn(h, 1))]
+        # ... and the visit of a field is conditional on that field only, not on another one
+        for f in fields:
+            if f in miss or P.has(h, "self.generic_visit(%s)" % pn(h, 1)):
+                continue
+            sites = []
+            for n_ in ast.walk(h):
+                if isinstance(n_, ast.Call) and dotted(n_.func) == "self.visit" and n_.args and ("node.%s" % f) in access_paths(h, {pn(h, 1): "node"}, within=[n_.args[0]]) | ({"node.%s" % f} if ("node.%s[]" % f) in access_paths(h, {pn(h, 1): "node"}, within=[n_.args[0]]) else set()):
+                    sites.append(n_)
+            def _free(site):
+                for a_ in ancestors(site):
+                    if a_ is h:
+                        break
+                    if isinstance(a_, ast.If):
+                        used = {p_ for p_ in access_paths(h, {pn(h, 1): "node"}, within=[a_.test]) if p_ != "node"}
+                        if any(not (p_ == "node.%s" % f or p_.startswith("node.%s." % f) or p_.startswith("node.%s[" % f)) for p_ in used):
+                            return False
+                return True
+            if sites and not any(_free(s_) for s_ in sites):
+                ctx.violation("idents:pyparser.FindIdentifiers.visit_%s#conditional:%s" % (c, f), db.where(sites[0]), "visit_%s scans node.%s only under a condition on another part of the node (`%s`): for nodes where that condition fails, names read in node.%s are never fetched from the context (NameError when the code runs)" % (c, f, src([a_ for a_ in ancestors(sites[0]) if isinstance(a_, ast.If)][0].test), f))
         ctx.check(not miss, "fields:" + c, db.where(h), "visit_%s never visits node.%s" % (c, ", node.".join(miss)), "covers %s" % fields)
     vf = meths.get("_visit_function")
     ctx.require(vf is not None and not isinstance(vf, ast.Assign), "FindIdentifiers._visit_function not found")
